@@ -25,6 +25,26 @@ owning property counts as "proof obligation broken", see fcv/tables_extract.py):
     theorem that uses the translation states (and thereby documents) what is assumed about them; an unexpected new
     call has no meaning there and the theorem breaks.
 
+Additions of phase 4 (see notes/PHASE4_pylite2.md):
+  * `d.get(k[, default])` is the builtin `dictGet` (the receiver must be a PyLite dict, anything else is stuck);
+    `sum(it)`; `k in d`, `d[k]`, `len(d)` work on dicts;
+  * a name that is bound nowhere in the function (module-level constant / table) is the zero-argument external
+    `.ext "global <name>" []`; a call of a parameter / local variable `f(a, …)` is `.ext "call" [f, a, …]` (the callee
+    is a value, so renaming it does not change the translation);
+  * `xs.append(v)` / `xs.remove(v)` as statements on a local list are `xs = xs + [v]` / `xs = remove(xs, v)`.  PyLite has
+    value semantics, so the translator only accepts them where Python's shared mutable lists cannot be told apart:
+    `xs` is a local (not a parameter) that is only ever bound to fresh lists (`[…]`, comprehension, `list(…)`), is never
+    aliased (`y = xs`), and inside `for t in xs:` a mutation of `xs` must be followed by a `return`/`raise` at the end
+    of its block (the loop is left before the next item would be fetched);
+  * a nested helper that is not a single `return <expr>` is INLINED where it is called as a statement-level condition
+    or right-hand side: `if [not] h(a): …`, `x = h(a)`, `x = [e for v in it if [not] h(v)]` (the comprehension is
+    written as the loop it abbreviates: `x = []; for v in it: if …: x = x + [e]`).  The helper's parameters and locals
+    are renamed apart, its parameters are assigned first, its body becomes `.inlineCall tmp body` (a `return` ends the
+    block and binds `tmp`).  Reads of enclosing variables see the current values, as a closure does;
+  * `for a, b in it:` is `for t in it: a, b = t`;
+  * `[v for v in it]` / `list(v for v in it)` / `list(list(it))` are `list(it)`;
+  * `not (a in b)`, `not (a not in b)`, `not (a is b)`, `not (a is not b)` are written as the complementary operator.
+
 Parameters and local variables are alpha-normalised (v0, v1, … in order of first occurrence), so renaming them,
 reformatting, comments, docstrings and type annotations do not change the translation at all (the rendering does
 not mention the source names either, so the module's status stays 'same').  `names_of(src, funcs)` prints the mapping."""
@@ -52,7 +72,8 @@ _BINOP = {ast.Add: "add", ast.Sub: "sub", ast.Mult: "mul", ast.FloorDiv: "floord
 _CMPOP = {ast.Eq: "eq", ast.NotEq: "ne", ast.Lt: "lt", ast.LtE: "le", ast.Gt: "gt", ast.GtE: "ge",
           ast.Is: "is", ast.IsNot: "isNot", ast.In: "isIn", ast.NotIn: "notIn"}
 _BUILTIN = {"len": ("len", 1), "int": ("int", 1), "bool": ("bool", 1), "abs": ("abs", 1), "min": ("min", 2),
-            "max": ("max", 2), "range": ("range", 1), "list": ("list", 1), "tuple": ("list", 1)}
+            "max": ("max", 2), "range": ("range", 1), "list": ("list", 1), "tuple": ("list", 1), "sum": ("sum", 1)}
+_CMP_NEG = {"isIn": "notIn", "notIn": "isIn", "is": "isNot", "isNot": "is"}
 TRUE = ("lit", ("bool", True))
 
 
@@ -187,6 +208,12 @@ class Tr:
         self.fn, self.enums, self.loggers = fn, enums, loggers
         self.helpers = {s.name: s for s in fn.body if isinstance(s, ast.FunctionDef)}
         self.fresh = 0
+        # every name bound somewhere in the function: parameters (also of nested defs / lambdas), assignment / loop /
+        # comprehension targets.  Any other name that is used as a value is a module-level one.
+        self.params = {a.arg for n in ast.walk(fn) if isinstance(n, (ast.FunctionDef, ast.Lambda)) for a in n.args.args}
+        self.bound = set(self.params) | {n.id for n in ast.walk(fn) if isinstance(n, ast.Name)
+                                         and isinstance(n.ctx, ast.Store)}
+        self.loop_lists = []        # names of the lists the enclosing `for t in <name>` loops iterate over
 
     # ---------------------------------------------------------------- expressions
     def expr(self, e, sub=None):  # noqa: C901, PLR0911, PLR0912
@@ -210,6 +237,8 @@ class Tr:
                 return sub[e.id]
             if e.id in self.helpers or e.id in self.enums:
                 raise TranslationError(f"`{e.id}` used as a value")
+            if e.id not in self.bound:
+                return ("ext", "global " + e.id, [])
             return ("var", e.id)
         if isinstance(e, ast.Attribute):
             if isinstance(e.value, ast.Name) and e.value.id in self.enums and e.value.id not in sub:
@@ -223,7 +252,10 @@ class Tr:
             return ("bin", _BINOP[type(e.op)], rec(e.left), rec(e.right))
         if isinstance(e, ast.UnaryOp):
             if isinstance(e.op, ast.Not):
-                return ("not", rec(e.operand))
+                inner = rec(e.operand)
+                if inner[0] == "cmp" and inner[1] in _CMP_NEG:
+                    return ("cmp", _CMP_NEG[inner[1]], inner[2], inner[3])
+                return ("not", inner)
             if isinstance(e.op, ast.USub):
                 if isinstance(e.operand, ast.Constant) and type(e.operand.value) is int:
                     return ("lit", ("int", -e.operand.value))
@@ -261,6 +293,9 @@ class Tr:
             return ("index", rec(e.value), rec(e.slice))
         if isinstance(e, (ast.ListComp, ast.GeneratorExp)):
             x, it, cond, sub2 = self.generator(e, sub)
+            if cond == TRUE and isinstance(e.elt, ast.Name) and e.elt.id == x and x not in sub2:
+                # `[v for v in it]` is `list(it)`
+                return it if it[:2] == ("call", "list") else ("call", "list", [it])
             return ("comp", x, it, self.expr(e.elt, sub2), cond)
         if isinstance(e, ast.Call):
             return self.call(e, sub)
@@ -326,15 +361,25 @@ class Tr:
                 b, arity = _BUILTIN[name]
                 if len(e.args) != arity:
                     raise TranslationError(f"{name}() with {len(e.args)} argument(s)")
-                return ("call", b, [self.expr(a, sub) for a in e.args])
+                targs = [self.expr(a, sub) for a in e.args]
+                if b == "list" and targs[0][:2] == ("call", "list"):      # list(list(x)) is list(x)
+                    return targs[0]
+                return ("call", b, targs)
             if name in self.helpers:
                 return self.inline(self.helpers[name], e.args, sub)
+            if name in self.bound:      # a callable VALUE (parameter / local variable)
+                if starred:
+                    raise TranslationError(f"starred call of the variable {name}")
+                return ("ext", "call", [("var", name)] + [self.expr(a, sub) for a in e.args])
             return self.ext(name, e.args, sub)
         if isinstance(f, ast.Attribute):
             if isinstance(f.value, ast.Name) and f.value.id[:1].isupper() and f.value.id not in sub \
                     and f.value.id not in self.enums:
                 # `Class.method(self, …)`: an explicit base-class call
                 return self.ext(f"{f.value.id}.{f.attr}", e.args, sub)
+            if f.attr == "get" and not starred and len(e.args) in (1, 2):
+                dflt = self.expr(e.args[1], sub) if len(e.args) == 2 else ("lit", ("none",))     # noqa: PLR2004
+                return ("call", "dictGet", [self.expr(f.value, sub), self.expr(e.args[0], sub), dflt])
             if starred:
                 return ("ext", f".{f.attr}*", [self.expr(f.value, sub), self.packed(e.args, sub)])
             return ("ext", f".{f.attr}", [self.expr(f.value, sub)] + [self.expr(a, sub) for a in e.args])
@@ -359,12 +404,6 @@ class Tr:
         return self.expr(body[0].value, dict(zip(params, [self.expr(a, sub) for a in args])))
 
     # ---------------------------------------------------------------- statements
-    def block(self, stmts) -> list:
-        out = []
-        for s in normalise_loops([s for s in stmts if not _is_docstring(s)]):
-            out += self.stmt(s)
-        return out
-
     def is_log_call(self, s) -> bool:
         """`<stdlib logger>.debug(<pure arguments>)` as a statement"""
         if not (isinstance(s, ast.Expr) and isinstance(s.value, ast.Call)):
@@ -375,11 +414,122 @@ class Tr:
                 and all(_simple(a) or isinstance(a, ast.JoinedStr) for a in c.args)
                 and all(_simple(k.value) for k in c.keywords))
 
+    # ------------------------------------------------------------ helpers with several statements: inlined calls
+    def block_helper(self, e):
+        """`h(args)` / `not h(args)` for a nested helper `h` that is not a single `return <expr>` -> (h, args, negated)"""
+        neg = False
+        if isinstance(e, ast.UnaryOp) and isinstance(e.op, ast.Not):
+            e, neg = e.operand, True
+        if isinstance(e, ast.Call) and isinstance(e.func, ast.Name) and e.func.id in self.helpers and not e.keywords \
+                and not any(isinstance(a, ast.Starred) for a in e.args):
+            h = self.helpers[e.func.id]
+            body = [s for s in h.body if not _is_docstring(s)]
+            if not (len(body) == 1 and isinstance(body[0], ast.Return) and body[0].value is not None):
+                return h, e.args, neg
+        return None
+
+    def inline_block(self, h: ast.FunctionDef, args, target: str) -> list:
+        """`target = h(args)` with the body of `h` inlined (parameters and locals of `h` renamed apart)"""
+        import copy
+        a = h.args
+        if a.vararg or a.kwarg or a.kwonlyargs or a.posonlyargs or len(a.args) != len(args):
+            raise TranslationError(f"helper {h.name}: arity")
+        if any(isinstance(n, (ast.Yield, ast.YieldFrom, ast.Nonlocal, ast.Global, ast.FunctionDef, ast.Lambda))
+               for st in h.body for n in ast.walk(st)):
+            raise TranslationError(f"helper {h.name}: yield / nonlocal / nested def")
+        local = {p.arg for p in a.args} | {n.id for st in h.body for n in ast.walk(st)
+                                           if isinstance(n, ast.Name) and isinstance(n.ctx, ast.Store)}
+        ren = {n: f"{n}@{h.name}" for n in local}
+        body = copy.deepcopy(h.body)
+        for st in body:
+            for n in ast.walk(st):
+                if isinstance(n, ast.Name) and n.id in ren:
+                    n.id = ren[n.id]
+        self.bound |= set(ren.values())
+        pre = [("assign", ren[p.arg], self.expr(x)) for p, x in zip(a.args, args)]
+        return pre + [("inlineCall", target, self.block(body))]
+
+    def tmp(self) -> str:
+        self.fresh += 1
+        return f"_t{self.fresh}"
+
+    def cond_with_helper(self, test):
+        """-> (prelude statements, condition expression)"""
+        bh = self.block_helper(test)
+        if bh is None:
+            return [], self.expr(test)
+        h, args, neg = bh
+        t = self.tmp()
+        self.bound.add(t)
+        return self.inline_block(h, args, t), (("not", ("var", t)) if neg else ("var", t))
+
+    # ------------------------------------------------------------ list mutation (`append`, `remove`)
+    def mutation(self, s):
+        """`<name>.append(v)` / `<name>.remove(v)` as a statement -> (name, method, v) else None"""
+        if isinstance(s, ast.Expr) and isinstance(s.value, ast.Call) and isinstance(s.value.func, ast.Attribute) \
+                and s.value.func.attr in ("append", "remove") and isinstance(s.value.func.value, ast.Name) \
+                and len(s.value.args) == 1 and not s.value.keywords and not isinstance(s.value.args[0], ast.Starred):
+            return s.value.func.value.id, s.value.func.attr, s.value.args[0]
+        return None
+
+    def check_local_list(self, x: str):
+        """value semantics = Python's semantics only for a local that is bound to fresh lists and never aliased"""
+        if x in self.params or x not in self.bound:
+            raise TranslationError(f"mutation of `{x}`, which is not a local list of this function")
+        for n in ast.walk(self.fn):
+            if isinstance(n, (ast.Assign, ast.AnnAssign)) and n.value is not None:
+                tg = n.targets if isinstance(n, ast.Assign) else [n.target]
+                if any(isinstance(t, ast.Name) and t.id == x for t in tg):
+                    v = n.value
+                    fresh = isinstance(v, (ast.List, ast.ListComp)) or (
+                        isinstance(v, ast.Call) and isinstance(v.func, ast.Name) and v.func.id == "list")
+                    if not fresh:
+                        raise TranslationError(f"`{x}` is mutated but bound to something that may be shared")
+                if isinstance(n.value, ast.Name) and n.value.id == x:
+                    raise TranslationError(f"`{x}` is mutated and aliased")
+
+    def block(self, stmts) -> list:
+        stmts = normalise_loops([s for s in stmts if not _is_docstring(s)])
+        for k, s in enumerate(stmts):
+            m = self.mutation(s)
+            if m and m[0] in self.loop_lists:
+                # the list is being iterated over: the loop must be left before the next item is fetched
+                rest = stmts[k + 1:]
+                if not rest or not isinstance(rest[-1], (ast.Return, ast.Raise)) \
+                        or any(self.mutation(r) is None for r in rest[:-1]):
+                    raise TranslationError(f"`{m[0]}` is mutated while it is iterated over")
+        out = []
+        for s in stmts:
+            out += self.stmt(s)
+        return out
+
     def stmt(self, s) -> list:  # noqa: C901, PLR0911, PLR0912
         if _is_docstring(s) or isinstance(s, (ast.Pass, ast.FunctionDef)):
             return []
         if self.is_log_call(s):
             return []
+        m = self.mutation(s)
+        if m:
+            x, meth, v = m
+            self.check_local_list(x)
+            if meth == "append":
+                return [("assign", x, ("bin", "add", ("var", x), ("tuple", [self.expr(v)])))]
+            return [("assign", x, ("call", "remove", [("var", x), self.expr(v)]))]
+        if isinstance(s, (ast.Assign, ast.AnnAssign)) and s.value is not None:
+            tg = s.targets[0] if isinstance(s, ast.Assign) and len(s.targets) == 1 else getattr(s, "target", None)
+            if isinstance(tg, ast.Name):
+                bh = self.block_helper(s.value)
+                if bh and not bh[2]:
+                    return self.inline_block(bh[0], bh[1], tg.id)
+                v = s.value
+                if isinstance(v, ast.ListComp) and len(v.generators) == 1 and len(v.generators[0].ifs) == 1 \
+                        and self.block_helper(v.generators[0].ifs[0]) and isinstance(v.generators[0].target, ast.Name):
+                    # the comprehension written as the loop it abbreviates
+                    g = v.generators[0]
+                    loop = ast.For(target=g.target, iter=g.iter, orelse=[], body=[ast.If(test=g.ifs[0], orelse=[], body=[
+                        ast.Expr(value=ast.Call(func=ast.Attribute(value=ast.Name(id=tg.id, ctx=ast.Load()), attr="append",
+                                                                   ctx=ast.Load()), args=[v.elt], keywords=[]))])])
+                    return [("assign", tg.id, ("tuple", []))] + self.stmt(loop)
         if isinstance(s, ast.Assert):
             # `assert c[, msg]` is `if not c: raise AssertionError` (the message is not part of the modelled result)
             return [("ite", ("not", self.expr(s.test)), [("raise", "AssertionError")], [])]
@@ -397,11 +547,24 @@ class Tr:
             cur = self.expr(s.target)
             return [self.assign(s.target, ("bin", _BINOP[type(s.op)], cur, self.expr(s.value)))]
         if isinstance(s, ast.If):
-            return [("ite", self.expr(s.test), self.block(s.body), self.block(s.orelse))]
+            pre, cond = self.cond_with_helper(s.test)
+            return pre + [("ite", cond, self.block(s.body), self.block(s.orelse))]
         if isinstance(s, ast.For):
-            if s.orelse or not isinstance(s.target, ast.Name):
-                raise TranslationError("for: only `for <name> in <expr>:` without else")
-            return [("forIn", s.target.id, self.expr(s.iter), self.block(s.body))]
+            if s.orelse:
+                raise TranslationError("for: only `for <target> in <expr>:` without else")
+            it = self.expr(s.iter)
+            self.loop_lists.append(s.iter.id if isinstance(s.iter, ast.Name) else None)
+            try:
+                body = self.block(s.body)
+            finally:
+                self.loop_lists.pop()
+            if isinstance(s.target, ast.Name):
+                return [("forIn", s.target.id, it, body)]
+            if isinstance(s.target, ast.Tuple) and all(isinstance(t, ast.Name) for t in s.target.elts):
+                t = self.tmp()
+                self.bound.add(t)
+                return [("forIn", t, it, [("unpack", [x.id for x in s.target.elts], ("var", t))] + body)]
+            raise TranslationError("for: target must be a name or a tuple of names")
         if isinstance(s, ast.Return):
             return [("ret", self.expr(s.value) if s.value is not None else ("lit", ("none",)))]
         if isinstance(s, ast.Expr) and isinstance(s.value, ast.Yield):
@@ -429,15 +592,17 @@ class Tr:
 _BINDERS = {"assign": 1, "setIndex": 1, "forIn": 1, "anyOf": 1, "allOf": 1, "comp": 1, "var": 1}
 
 
-def normalise_names(params, body):
+def normalise_names(params, body, scoped=False):
     """alpha-normalisation: parameters and local variables are renamed to v0, v1, … in the order of their first
     occurrence (parameters first), so that renaming them in the source does not change the translation at all.
     Attribute names, enum members and external function names are kept (they are interface, not local choice)."""
     names = {}
 
+    hidden = []     # numbers used by comprehension variables that are out of scope (never reused)
+
     def nm(x):
         if x not in names:
-            names[x] = f"v{len(names)}"
+            names[x] = f"v{len(names) + len(hidden)}"
         return names[x]
 
     def walk(t):
@@ -456,9 +621,26 @@ def normalise_names(params, body):
             x = nm(t[1])
             return (k, x) + tuple(rest) + tuple(walk(y) for y in t[3:])
         if k in ("anyOf", "allOf", "comp"):
+            # the variable of a comprehension / generator has its own scope: it gets a number of its own even when the
+            # same source name is also used elsewhere in the function
             it = walk(t[2])
+            if not scoped:          # the modules of phase 2 keep their numbering
+                x = nm(t[1])
+                return (k, x, it) + tuple(walk(y) for y in t[3:])
+            outer = names.pop(t[1], None)
+            if outer is not None:
+                hidden.append(outer)
             x = nm(t[1])
-            return (k, x, it) + tuple(walk(y) for y in t[3:])
+            rest = tuple(walk(y) for y in t[3:])
+            inner = names.pop(t[1])
+            hidden.append(inner)
+            if outer is not None:
+                names[t[1]] = outer
+                hidden.remove(outer)
+            return (k, x, it) + rest
+        if k == "inlineCall":                 # the block is run before the result is bound
+            body_ = walk(t[2])
+            return (k, nm(t[1]), body_)
         if k in ("var", "setIndex"):
             return (k, nm(t[1])) + tuple(walk(y) for y in t[2:])
         if k in ("attr",):
@@ -499,17 +681,18 @@ def canonical_init_prefix(body: list) -> list:
     return [("assign", n, v) for n, v in run] + rest
 
 
-def translate_function(fn: ast.FunctionDef, enums, loggers=frozenset()) -> dict:
+def translate_function(fn: ast.FunctionDef, enums, loggers=frozenset(), scoped=False) -> dict:
     a = fn.args
     if a.vararg or a.kwarg or a.kwonlyargs or a.posonlyargs:
         raise TranslationError(f"{fn.name}: only plain positional parameters are supported")
     tr = Tr(fn, enums, loggers)
-    params, body, names = normalise_names([p.arg for p in a.args], canonical_init_prefix(tr.block(fn.body)))
+    params, body, names = normalise_names([p.arg for p in a.args], canonical_init_prefix(tr.block(fn.body)), scoped)
     return {"params": params, "body": body, "names": names}
 
 
-def extract_funcs(src, funcs) -> dict:
-    """funcs: [(Lean name without the `Src` suffix, file, dotted path of the def inside the file)]"""
+def extract_funcs(src, funcs, scoped_comp=False) -> dict:
+    """funcs: [(Lean name without the `Src` suffix, file, dotted path of the def inside the file)];
+    scoped_comp: comprehension variables are numbered in their own scope (modules added in phase 4)"""
     trees = {}
 
     def tree(rel):
@@ -524,7 +707,7 @@ def extract_funcs(src, funcs) -> dict:
     out = {}
     for lean, rel, path in funcs:
         fn, _ = find_def(tree(rel), path)
-        out[lean] = dict(translate_function(fn, enums, stdlib_loggers(tree(rel))), path=f"{rel}: {path}")
+        out[lean] = dict(translate_function(fn, enums, stdlib_loggers(tree(rel)), scoped_comp), path=f"{rel}: {path}")
     return out
 
 
@@ -618,6 +801,8 @@ def _st(s, ind) -> str:  # noqa: PLR0911
         return f".ite {_e(s[1])} {_block(s[2], ind)} {_block(s[3], ind)}"
     if k == "forIn":
         return f".forIn {_s(s[1])} {_e(s[2])} {_block(s[3], ind)}"
+    if k == "inlineCall":
+        return f".inlineCall {_s(s[1])} {_block(s[2], ind)}"
     if k in ("ret", "yield"):
         return f".{k} {_e(s[1])}"
     if k == "raise":
